@@ -206,7 +206,7 @@ def user_contents(family):
 
 
 GRID = [0.0, -0.0, 1.0, -1.5, 0.125, 2.5, 1e10, -3.0e-5, 65504.0]
-BIG_INTS = [0, 1, -1, 2**31 - 1, -2**31 + 3, 2**53 + 1, 2**60 + 1,
+BIG_INTS = [0, 1, -1, 2**31 - 4, -2**31 + 4, 2**53 + 1, 2**60 + 1,
             -(2**62) - 3, 9007199254740993]
 
 
@@ -227,7 +227,8 @@ def int_values(draw, n, dtype):
     bits = int(dtype[3:])
     # (netCDF reserves -(2**(bits-1)) + 1, for int64 + 2, as the default
     # fill value: data that contains it is read as missing)
-    lo, hi = -(2 ** (bits - 1)) + 3, 2 ** (bits - 1) - 1
+    # (and the convert function of the histories negates integers)
+    lo, hi = -(2 ** (bits - 1)) + 4, 2 ** (bits - 1) - 4
     elems = st.one_of(st.integers(-5, 5), st.integers(lo, hi),
                       st.sampled_from([v for v in BIG_INTS + [lo, hi]
                                        if lo <= v <= hi]))
